@@ -326,6 +326,7 @@ func productMemoRule(P *Program, R *Report) {
 		}
 		R.decide(rule, FuncKey(pf)+":cache-key", "after prepending, the cached product is re-keyed to the new first event index (or dropped)", okKey && nNil, "", P.Pos(pf.Pos()))
 	}
+	prependProductRule(P, R, rule)
 	// every other writer of the event list drops the memo: the cache key names only `from`, so whoever
 	// replaces update.Events in an existing object must invalidate the cached product in the same call
 	nWriters := 0
@@ -534,4 +535,48 @@ func historyValuesImmutableRule(P *Program, R *Report) {
 	if len(bad) == 0 {
 		R.ok(rule, "revocation:history-values-immutable", fmt.Sprintf("none of the %d operand uses is the receiver of a mutating big.Int method", nReads))
 	}
+}
+
+// prependProductRule: in Update.Prepend the product of the merged update starts from Product() of the NEW
+// object over its own (trimmed) events - not from the receiver's cached product, which covers other
+// events and whose integer is shared with the receiver (a refused Prepend must leave the receiver intact).
+func prependProductRule(P *Program, R *Report, rule string) {
+	pf := mustFunc(P, R, rule, "revocation.(*Update).Prepend")
+	if pf == nil {
+		return
+	}
+	n, ok := 0, true
+	var detail []string
+	allInstrs(pf, func(i ssa.Instruction) {
+		st, isSt := i.(*ssa.Store)
+		if !isSt || desc(st.Addr) != "new:revocation.Update.product" || isNilConst(st.Val) {
+			return
+		}
+		n++
+		site := siteOf(st.Val)
+		c, isCall := site.(*ssa.Call)
+		if !isCall || calleeName(c) != kProduct || desc(c.Call.Args[0]) != "new:revocation.Update" {
+			ok = false
+			detail = append(detail, P.Pos(st.Pos())+": the merged product starts from "+desc(site))
+			return
+		}
+		if d := desc(c.Call.Args[1]); !strings.Contains(d, "new:revocation.Update.Events[0].Index") {
+			ok = false
+			detail = append(detail, P.Pos(st.Pos())+": Product is asked for "+d)
+		}
+	})
+	R.decide(rule, "revocation.(*Update).Prepend:product-of-merged", "the merged update's product is computed by the new object over its own retained events (fresh integer, right window)", ok && n >= 1, strings.Join(detail, "\n"), P.Pos(pf.Pos()))
+	// and the in-place multiplication happens on that fresh value only
+	okMul := true
+	for _, c := range callsIn(pf) {
+		call, isC := c.(*ssa.Call)
+		if !isC || bigMethod(c) == "" || !bigMutators[bigMethod(c)] {
+			continue
+		}
+		if d := desc(siteOf(call.Call.Args[0])); strings.HasPrefix(d, "<revocation.Update>") || strings.HasPrefix(d, "<revocation.EventList>") {
+			okMul = false
+			detail = append(detail, P.Pos(call.Pos())+": in-place "+bigMethod(c)+" on "+d)
+		}
+	}
+	R.decide(rule, "revocation.(*Update).Prepend:no-in-place-on-inputs", "Prepend multiplies into the new object's product only, never into the receiver's or the list's", okMul, strings.Join(detail, "\n"), P.Pos(pf.Pos()))
 }
